@@ -6,7 +6,7 @@
 #include "convgen.h"
 
 static int Nmax = 2, Lmax = 3;
-static char path[512];
+static char path[512], pydir[400]; static int pymode;
 static int ins_pos, ins_indent; static char ins_c; static char ins_text[24];
 static int longmode;                 /* --p3 = 1: the comment line is long: a token of <= 2 structural characters sits at a buffer-size boundary of a line of 'a's */
 static const int LONG_AT[8] = { 8188, 8190, 8191, 8192, 16382, 16383, 16384, 32767 };
@@ -60,7 +60,16 @@ static int take(const char *content, size_t len, obs_cfg *o, sbuf *why, const ch
   strcpy(dbuf, "%"); strcpy(cbuf, "!");
   { econf_file *pf = NULL; if (econf_readFile(&pf, prime, dbuf, cbuf) == ECONF_SUCCESS) econf_freeFile(pf); }
   snprintf(dbuf, sizeof dbuf, "%s", cg.D); snprintf(cbuf, sizeof cbuf, "%s", cg.Carg);
-  econf_err rc = econf_readFile(&kf, path, dbuf, cbuf);
+  econf_err rc;
+  if (pymode) {
+    /* --p5 1: the same file read as the main file of a layered read with PYTHON_STYLE=1 (an indented line continues the previous
+     * value there - unless its first non-blank character is a comment character) */
+    char opt[700]; snprintf(opt, sizeof opt, "PYTHON_STYLE=1;PARSING_DIRS=%s", pydir);
+    rc = econf_newKeyFile_with_options(&kf, opt);
+    if (rc == ECONF_SUCCESS) rc = econf_readConfig(&kf, NULL, NULL, "cfg", "conf", dbuf, cbuf);
+    if (rc != ECONF_SUCCESS && kf) { econf_freeFile(kf); kf = NULL; }
+  } else
+  rc = econf_readFile(&kf, path, dbuf, cbuf);
   mc_st->libcalls += 2;
   if (rc != ECONF_SUCCESS || !kf) { sb_printf(why, "reading the %s failed with %d (%s)", what, (int)rc, econf_errString(rc)); return -1; }
   sbuf err = {0};
@@ -145,6 +154,8 @@ int main(int argc, char **argv)
   cg_opt_oddquote = (int)mc_opt.param[4];   /* --p4 1: values {v, "q r, "q" r} - the first sentence of the statement holds after ANY line: also after a value whose quote is still open */
   mc_split = 4;
   snprintf(path, sizeof path, "%s/f.conf", mc_work);
+  pymode = (int)mc_opt.param[5];
+  if (pymode) { snprintf(pydir, sizeof pydir, "%s/py", mc_work); mkdir(pydir, 0755); snprintf(path, sizeof path, "%s/cfg.conf", pydir); }
   if (mc_opt.case_id) return mc_replay(gen, exec, mc_opt.case_id);
   int complete = 1;
   for (int ci = 0; ci < CG_NCFG_WITH_ODD_COMMENT && complete; ci++) {
